@@ -472,6 +472,9 @@ class SyncObj(object):
                 if changeClusterRequest is None or self.__changeCluster(changeClusterRequest):
 
                     self.__raftLog.add(command, idx, term)
+                    if changeClusterRequest is not None:
+                        # next cluster change is refused until this one is applied
+                        self.__changeClusterIDx = idx
 
                     if requestNode is None:
                         if callback is not None:
